@@ -1,6 +1,10 @@
 package graph
 
 import (
+	"context"
+	"encoding/json"
+
+	"github.com/99designs/gqlgen/graphql"
 	"strings"
 
 	"github.com/vektah/gqlparser/v2/ast"
@@ -94,5 +98,81 @@ func Harness_C02_args() {
 		zzsym.Assert(len(w.args) == 0, "the resolver is not called when an argument cannot be coerced")
 		zzsym.Assert(len(got.errs) == 1 && got.errs[0] == c.errAt, "one error at the argument's path")
 		zzsym.Reach("c02.rejected")
+	}
+}
+
+// ---- variables through the real pipeline (executor.CreateOperationContext:
+// gqlparser's variable coercion, then the generated binders)
+
+type c02VarCase struct {
+	query string
+	vars  map[string]any
+	want  string // arguments the resolver must receive; "" = the request is rejected or the field fails
+}
+
+var c02VarCases = []c02VarCase{
+	{`query($n: Int = 4) { me { calc(n: $n) } }`, nil, "f=nil xs=nil e=RED o=nil id=nil fl=nil n=4 ys=nil"},
+	{`query($n: Int = 4) { me { calc(n: $n) } }`, map[string]any{}, "f=nil xs=nil e=RED o=nil id=nil fl=nil n=4 ys=nil"},
+	{`query($n: Int = 4) { me { calc(n: $n) } }`, map[string]any{"n": int64(9)}, "f=nil xs=nil e=RED o=nil id=nil fl=nil n=9 ys=nil"},
+	{`query($n: Int = 4) { me { calc(n: $n) } }`, map[string]any{"n": json.Number("12")}, "f=nil xs=nil e=RED o=nil id=nil fl=nil n=12 ys=nil"},
+	{`query($n: Int = 4) { me { calc(n: $n) } } #nullvar`, map[string]any{"n": nil}, ""},
+	{`query($n: Int = 4) { me { calc(n: $n) } }`, map[string]any{"n": json.Number("1.5")}, ""},
+	// gqlgen's Int is deliberately lenient about numeric text (graphql.UnmarshalInt accepts strings; gqlparser lets them through)
+	{`query($n: Int = 4) { me { calc(n: $n) } }`, map[string]any{"n": "7"}, "f=nil xs=nil e=RED o=nil id=nil fl=nil n=7 ys=nil"},
+	{`query($n: Int = 4) { me { calc(n: $n) } }`, map[string]any{"n": "seven"}, ""},
+	{`query($n: Int!) { me { calc(n: $n) } }`, nil, ""},
+	{`query($n: Int!) { me { calc(n: $n) } }`, map[string]any{"other": int64(1)}, ""},
+	{`query($e: Color = GREEN) { me { calc(e: $e) } }`, nil, "f=nil xs=nil e=GREEN o=nil id=nil fl=nil n=7 ys=nil"},
+	{`query($e: Color = GREEN) { me { calc(e: $e) } }`, map[string]any{"e": nil}, "f=nil xs=nil e=nil o=nil id=nil fl=nil n=7 ys=nil"},
+	{`query($x: [Int!]) { me { calc(xs: $x) } }`, map[string]any{"x": int64(5)}, "f=nil xs=[5] e=RED o=nil id=nil fl=nil n=7 ys=nil"},
+	{`query($x: [Int!]) { me { calc(xs: $x) } }`, map[string]any{"x": []any{int64(1), "two"}}, ""},
+	{`query($x: [Int!] = [3, 4]) { me { calc(xs: $x) } }`, nil, "f=nil xs=[3,4] e=RED o=nil id=nil fl=nil n=7 ys=nil"},
+	{`query($f: Filter = {min: 2}) { me { calc(f: $f) } }`, nil, "f={min:2 tags:nil sub:nil g:nil} xs=nil e=RED o=nil id=nil fl=nil n=7 ys=nil"},
+	{`query($f: Filter) { me { calc(f: $f) } }`, map[string]any{"f": map[string]any{"tags": "a"}}, "f={min:1 tags:[a] sub:nil g:nil} xs=nil e=RED o=nil id=nil fl=nil n=7 ys=nil"},
+	{`query($f: Filter) { me { calc(f: $f) } }`, map[string]any{"f": map[string]any{"nope": int64(1)}}, ""},
+	{`query($fl: Float, $id: ID) { me { calc(fl: $fl, id: $id) } }`, map[string]any{"fl": json.Number("2.5"), "id": json.Number("12")}, "f=nil xs=nil e=RED o=nil id=12 fl=2.5 n=7 ys=nil"},
+	{`query($fl: Float, $id: ID) { me { calc(fl: $fl, id: $id) } }`, map[string]any{"fl": int64(3), "id": "abc"}, "f=nil xs=nil e=RED o=nil id=abc fl=3 n=7 ys=nil"},
+	{`query($p: Patch = {note: "d"}) { me { patch(p: $p) } }`, nil, "p={note:d count:5 tags:unset sub:unset} b=nil"},
+}
+
+var c02VarDocsOK bool
+
+func Setup_C02_variables() { probeSetup() }
+
+// Harness_C02_variables: requests with variables through the executor's own
+// pipeline (CreateOperationContext: variable defaults, presence, coercion of
+// the JSON values, then the generated binders): the resolver receives the
+// spec-coerced values - a variable's default when the request gives none,
+// single values as lists, json.Number forms - and a request whose variables
+// cannot be coerced, or lacks a required one, never reaches the resolver.
+func Harness_C02_variables() {
+	ci := zzsym.Choice("case", len(c02VarCases))
+	c := c02VarCases[ci]
+	w := newWorld(0, false)
+	es := newES(w)
+	ex := newExecutorFor(es, w)
+	ctx := graphql.StartOperationTrace(context.Background())
+	rc, errs := ex.CreateOperationContext(ctx, &graphql.RawParams{Query: c.query, Variables: c.vars})
+	nerr := len(errs)
+	if len(errs) == 0 {
+		rh, ctx2 := ex.DispatchOperation(ctx, rc)
+		resp := rh(ctx2)
+		nerr = len(resp.Errors)
+	}
+	if len(w.args) > 0 {
+		zzsym.Event("args", w.args[0])
+	}
+	if c.want != "" {
+		zzsym.Assert(nerr == 0, "no error for coercible variables")
+		zzsym.Assert(len(w.args) == 1 && w.args[0] == c.want, "the resolver receives exactly the coerced variable values (defaults included)")
+		zzsym.Reach("c02.vars.coerced")
+	} else {
+		if strings.HasSuffix(c.query, " #nullvar") {
+			// spec CoerceArgumentValues: a null runtime value for a non-null argument is a field error
+			zzsym.Assert(len(w.args) == 0, "an explicit null variable in a non-null argument position fails the field")
+		}
+		zzsym.Assert(len(w.args) == 0, "the resolver is not called when a variable is missing or cannot be coerced")
+		zzsym.Assert(nerr >= 1, "the failure is reported")
+		zzsym.Reach("c02.vars.rejected")
 	}
 }
